@@ -1124,6 +1124,9 @@ decl(struct scope *s, struct func *f)
 				scopeputdecl(s, mkdecl(name, DECLTYPE, t, tq, LINKNONE));
 			else if (!typesame(prior->type, t) || prior->qual != tq)
 				error(&tok.loc, "typedef '%s' redefined with different type", name);
+			/* array sizes are evaluated when the declaration is reached (6.7.8p3) */
+			if (f && t->prop & PROPVM)
+				calcvla(f, t);
 			break;
 		case DECLOBJECT:
 			if (align && align < t->align)
